@@ -28,7 +28,8 @@ import (
 func round5Scenarios() []func() []monFailure {
 	return []func() []monFailure{scenOwnerAfterRolledBackRegistration, scenParamsAfterFailedProposal, scenRecreateOverExpiredStream, scenPartialUnlockWithOtherHolder, scenSignerListWithBlanks,
 		scenRecheckAfterFeeChange, scenReregisterSameMoniker, scenSameBlockCancel, scenManyDenominationsSupply, scenOnlyRegistryMsgsUnlock,
-		scenStartingIdsAcrossExport, scenZeroHeightExportInMintWindow, scenEmptiedAccountSurvivesExport, scenFeeRuleOverLayouts, scenQueuesLongerThanAPage}
+		scenStartingIdsAcrossExport, scenZeroHeightExportInMintWindow, scenEmptiedAccountSurvivesExport, scenFeeRuleOverLayouts, scenQueuesLongerThanAPage,
+		scenAcceptAndRejectThresholdsBothMet, scenUpdateAndTopUpSameBlock}
 }
 
 // C09 / C13: a transaction [register; record on the id it is about to receive; a failing message] is rolled back as a
@@ -960,6 +961,95 @@ func scenQueuesLongerThanAPage() []monFailure {
 	}
 	if got := c.app.BankKeeper.GetSupply(c.committedCtx(), "nund").Amount.Sub(supplyBefore); notAcc == 0 && !got.Equal(want) {
 		s.fail("C02", 0, fmt.Sprintf("110 orders summing to %snund were accepted in one BeginBlock; the following BeginBlocks raised the supply by %snund", want, got))
+	}
+	return s.failures
+}
+
+// C14 / C03 (round 8): an order holds one accept and one reject, undecided under signers {0,1,2} / 2 accepts needed.
+// Governance then replaces the signer list by {2} with 1 accept needed: the order now meets BOTH thresholds.  Whatever
+// the tally decides, the following BeginBlocks must not panic and the order's status must agree with the queues.
+func scenAcceptAndRejectThresholdsBothMet() []monFailure {
+	s := &scen{c: newChain(fixedCfg()), name: "accept-and-reject-thresholds-both-met"}
+	defer s.c.close()
+	c := s.c
+	gov := authtypes.NewModuleAddress("gov").String()
+	s.blockStart(5 * time.Second)
+	s.tx(4, nundCoins(0), c.mEntRaise(4, "nund", sdk.NewInt(4242)).m)
+	s.tx(0, nundCoins(0), c.mEntDecide(0, 1, 2).m) // accept
+	s.tx(1, nundCoins(0), c.mEntDecide(1, 1, 3).m) // reject
+	s.blockEnd()
+	p := c.app.EnterpriseKeeper.GetParams(c.committedCtx())
+	p.EntSigners, p.MinAccepts = c.addrOf(2).String(), 1
+	var pid uint64
+	prop, found := s.govPass(&pid, &enttypes.MsgUpdateParams{Authority: gov, Params: p})
+	if !found || prop.Status != govv1.StatusPassed {
+		return s.failures
+	}
+	if po, _ := c.app.EnterpriseKeeper.GetPurchaseOrder(c.committedCtx(), 1); po.Status != enttypes.StatusRaised {
+		return s.failures // decided before the parameter change: nothing to observe
+	}
+	supply := c.app.BankKeeper.GetSupply(c.committedCtx(), "nund").Amount
+	for b := 0; b < 4; b++ {
+		if pv := s.blockStart(5 * time.Second); pv != nil {
+			for _, prop := range []string{"C14", "C03"} {
+				s.fail(prop, 0, fmt.Sprintf("BeginBlock %d after the signer list was replaced (order 1 holds one accept and one reject, both thresholds met) panicked: %v", b+1, pv))
+			}
+			return s.failures
+		}
+		s.blockEnd()
+	}
+	ctx := c.committedCtx()
+	po, _ := c.app.EnterpriseKeeper.GetPurchaseOrder(ctx, 1)
+	grew := c.app.BankKeeper.GetSupply(ctx, "nund").Amount.Sub(supply)
+	switch po.Status {
+	case enttypes.StatusCompleted:
+		if !grew.Equal(sdk.NewInt(4242)) {
+			s.fail("C02", 0, fmt.Sprintf("order 1 (4242nund) completed; the supply grew by %snund", grew))
+		}
+	case enttypes.StatusRejected:
+		if !grew.IsZero() {
+			s.fail("C02", 0, fmt.Sprintf("order 1 was rejected; the supply grew by %snund", grew))
+		}
+	default:
+		s.fail("C03", 0, fmt.Sprintf("four blocks after order 1 met a threshold it is still %s", po.Status))
+	}
+	return s.failures
+}
+
+// C12 / C11 (round 8): two operations on one stream in the same block second.  A stream runs dry and is claimed empty;
+// long afterwards the sender changes the flow rate and tops up IN THE SAME BLOCK; ten seconds later the sender cancels:
+// the refund is the top-up minus ten seconds of flow, the receiver gets ten seconds of flow less the validator fee.
+func scenUpdateAndTopUpSameBlock() []monFailure {
+	s := &scen{c: newChain(fixedCfg()), name: "update-flow-and-top-up-in-one-block"}
+	defer s.c.close()
+	c := s.c
+	s.blockStart(5 * time.Second)
+	if r := s.tx(0, nundCoins(0), c.mStrCreate(0, 1, "nund", sdk.NewInt(1000), 10).m); r.Code != 0 {
+		s.blockEnd()
+		return s.failures
+	}
+	s.blockEnd()
+	s.blockStart(200 * time.Second)
+	s.tx(1, nundCoins(0), c.mStrClaim(0, 1).m) // drained: deposit 0
+	s.blockEnd()
+	s.blockStart(5000 * time.Second)
+	r1 := s.tx(0, nundCoins(0), c.mStrUpdate(0, 1, 20).m)
+	r2 := s.tx(0, nundCoins(0), c.mStrTopUp(0, 1, "nund", sdk.NewInt(6000)).m)
+	s.blockEnd()
+	if r1.Code != 0 || r2.Code != 0 {
+		return s.failures
+	}
+	s.blockStart(10 * time.Second)
+	before := c.app.BankKeeper.GetBalance(c.ctx(), c.addrOf(0), "nund").Amount
+	r := s.tx(0, nundCoins(0), c.mStrCancel(0, 1).m)
+	refund := c.app.BankKeeper.GetBalance(c.ctx(), c.addrOf(0), "nund").Amount.Sub(before)
+	s.blockEnd()
+	if r.Code != 0 {
+		s.fail("C12", 0, "the cancel of a funded stream failed: "+firstLine(r.Log))
+	} else if !refund.Equal(sdk.NewInt(5800)) {
+		for _, prop := range []string{"C12", "C11"} {
+			s.fail(prop, 0, fmt.Sprintf("a drained stream was re-rated to 20/s and topped up with 6000nund in one block; the cancel 10 s later refunds %snund, the unreleased remainder is 5800nund", refund))
+		}
 	}
 	return s.failures
 }
